@@ -80,6 +80,24 @@ pub fn classify_kf(l: Layout, op: &OpInfo, a: u128, b: u128, _ex: &Exact) -> Opt
     None
 }
 
+/// Inside the cause region a mismatch belongs to the known finding only if the observed outcome is
+/// exactly the behaviour the pinned tree documents; any other wrong outcome is a different failure.
+pub fn classify_kf_observed(l: Layout, op: &OpInfo, a: u128, b: u128, ex: &Exact, got: &vcore::Out) -> Option<&'static str> {
+    let k = classify_kf(l, op, a, b, ex)?;
+    let form = match op.form {
+        Form::Checked => 0,
+        Form::Saturating => 1,
+        Form::Wrapping => 2,
+        Form::Overflowing => 3,
+        Form::Plain => 4,
+    };
+    if *got == vcore::exact::div_euclid_legacy_outcome(l, form, a, b, vcore::CHECKED_PROFILE) {
+        Some(k)
+    } else {
+        None
+    }
+}
+
 /// oracle self-test: Z against native i128 arithmetic on the exhaustive 8-bit cube
 pub fn selftest() {
     let mut n = 0u64;
